@@ -9,9 +9,15 @@ use std::sync::Mutex;
 
 static LOG: Mutex<Vec<(String, i64)>> = Mutex::new(Vec::new()); // (path, stage) ; stage -1 = at_sim_end
 
+static PANIC_AT: Mutex<Option<(String, usize)>> = Mutex::new(None); // a module that panics in one of its start-up stages
+
 struct Rec { path: String, stages: usize }
 impl Module for Rec {
-    fn at_sim_start(&mut self, stage: usize) { LOG.lock().unwrap().push((self.path.clone(), stage as i64)); }
+    fn at_sim_start(&mut self, stage: usize) {
+        LOG.lock().unwrap().push((self.path.clone(), stage as i64));
+        let p = PANIC_AT.lock().unwrap().clone();
+        if p == Some((self.path.clone(), stage)) { panic!("module fault injected by tree_driver"); }
+    }
     fn num_sim_start_stages(&self) -> usize { self.stages }
     fn at_sim_end(&mut self) -> Result<(), RuntimeError> { LOG.lock().unwrap().push((self.path.clone(), -1)); Ok(()) }
 }
@@ -67,26 +73,33 @@ fn main() {
     let seed: u64 = args.get(3).and_then(|s| s.parse().ok()).unwrap_or(1);
     let mut s = seed.wrapping_mul(6364136223846793005).wrapping_add(1442695040888963407) | 1;
     let mut rnd = move || { s ^= s << 13; s ^= s >> 7; s ^= s << 17; s };
+    std::panic::set_hook(Box::new(|_| {}));
     for _ in 0..count {
         let (nodes, order) = gen(&mut rnd);
         LOG.lock().unwrap().clear();
+        // every 5th scenario: one module panics in one of its start-up stages; the panic is contained, every OTHER module must still
+        // see its start-up stages in order and its at_sim_end exactly once (the faulty module itself is left out of the comparison)
+        let faulty: Option<usize> = if rnd() % 5 == 0 { Some((rnd() % nodes.len() as u64) as usize) } else { None };
+        *PANIC_AT.lock().unwrap() = faulty.map(|f| (nodes[f].path.clone(), (rnd() % nodes[f].stages as u64) as usize));
+        let fpath: Option<String> = faulty.map(|f| nodes[f].path.clone());
         let mut sim = Sim::new(());
         for &i in order.iter() { sim.node(nodes[i].path.as_str(), Rec { path: nodes[i].path.clone(), stages: nodes[i].stages }); }
         let res = std::panic::catch_unwind(std::panic::AssertUnwindSafe(move || Builder::seeded(1).quiet().build(sim.freeze()).run()));
-        let log = LOG.lock().unwrap().clone();
+        let log: Vec<(String, i64)> = LOG.lock().unwrap().iter().filter(|e| Some(&e.0) != fpath.as_ref()).cloned().collect();
         let pre = preorder(&nodes, &order);
         let max_stage = nodes.iter().map(|n| n.stages).max().unwrap_or(0);
         let mut expected: Vec<(String, i64)> = vec![];
-        for st in 0..max_stage { for &i in pre.iter() { if nodes[i].stages > st { expected.push((nodes[i].path.clone(), st as i64)); } } }
+        for st in 0..max_stage { for &i in pre.iter() { if nodes[i].stages > st && Some(i) != faulty { expected.push((nodes[i].path.clone(), st as i64)); } } }
         let starts: Vec<(String, i64)> = log.iter().filter(|e| e.1 >= 0).cloned().collect();
         let ends: Vec<String> = log.iter().filter(|e| e.1 < 0).map(|e| e.0.clone()).collect();
-        let creation: Vec<String> = order.iter().map(|&i| format!("{}({})", nodes[i].path, nodes[i].stages)).collect();
+        let mut creation: Vec<String> = order.iter().map(|&i| format!("{}({})", nodes[i].path, nodes[i].stages)).collect();
+        if let Some(p) = PANIC_AT.lock().unwrap().clone() { creation.push(format!("PANICS: {} in stage {}", p.0, p.1)); }
         let mut bad: Option<(&str, String, String)> = None;
         if res.is_err() { bad = Some(("run-panicked", "run() returns".into(), "panic".into())); }
         else if starts != expected { bad = Some(("start-up-order", format!("{:?}", expected), format!("{:?}", starts))); }
         else {
             let mut sorted = ends.clone(); sorted.sort();
-            let mut all: Vec<String> = nodes.iter().map(|n| n.path.clone()).collect(); all.sort();
+            let mut all: Vec<String> = nodes.iter().enumerate().filter(|(i, _)| Some(*i) != faulty).map(|(_, n)| n.path.clone()).collect(); all.sort();
             if sorted != all { bad = Some(("at-sim-end-not-exactly-once", format!("{:?}", all), format!("{:?}", sorted))); }
             else if log.iter().position(|e| e.1 < 0).map(|p| log[p..].iter().any(|e| e.1 >= 0)).unwrap_or(false) { bad = Some(("at-sim-end-before-start", "all at_sim_end calls after the last at_sim_start".into(), format!("{:?}", log))); }
         }
